@@ -86,6 +86,11 @@ pub fn check(c: &OntCase, stats: &mut Stats) -> CheckResult {
     if n.no_header {
         stats.label("obo-without-header");
     }
+    match n.eof % 3 {
+        1 => stats.label("files-without-final-newline"),
+        2 => stats.label("files-with-blank-line-at-end"),
+        _ => {}
+    }
     if n.hpoa_head % 4 >= 2 && (!model.direct[OMIM].is_empty() || !model.direct[ORPHA].is_empty()) {
         stats.label("hpoa-without-column-line");
         if n.hpoa_head % 4 == 3 {
@@ -188,7 +193,7 @@ impl Property for C09 {
         }
     }
     fn required_labels(&self, _tier: Tier) -> Vec<&'static str> {
-        vec!["nontrivial", "NOT-rows", "disease-only-negated", "NOT-row-for-an-existing-link", "DECIPHER-rows", "typedef-stanzas", "extra-columns", "name-with-colon-space", "non-ascii-name", "transitive-loader", "compared-with-builder", "obo-without-header", "hpoa-without-column-line", "hpoa-starts-with-a-row"]
+        vec!["nontrivial", "NOT-rows", "disease-only-negated", "NOT-row-for-an-existing-link", "DECIPHER-rows", "typedef-stanzas", "extra-columns", "name-with-colon-space", "non-ascii-name", "transitive-loader", "compared-with-builder", "obo-without-header", "hpoa-without-column-line", "hpoa-starts-with-a-row", "files-without-final-newline", "files-with-blank-line-at-end"]
     }
     fn run_generated(&self, tier: Tier, seed: u64, n: u64, stats: &mut Stats) -> Option<(Value, Failure)> {
         run_typed(strategy(tier), seed, n, stats, check)
